@@ -27,4 +27,11 @@ def C17_rejoins_bounded : Prop :=
   ∀ (cfg : Cfg) (evs : List Ev), (final cfg evs).started = true → (final cfg evs).stopping = false →
     ∃ tail : List Ev, tail.length ≤ 8 ∧ (final cfg (evs ++ tail)).rejoinNeeded = false
 
+/-- After an UnknownMemberId / InvalidGroupId eviction every JoinGroup sent before the next successful
+    join reply quotes the empty member id (so a coordinator that forgot the member lets it back in).
+    Proved at table level (`C17_forgotten_member_resets`: the member id is cleared in that step); the
+    trace-level statement needs the frame "nothing but a join reply sets a non-empty member id". -/
+def C17_fresh_after_eviction : Prop :=
+  ∀ (cfg : Cfg) (evs : List Ev), freshAfterEviction (toMSteps (run cfg evs)) = true
+
 end Afkak.Props.C17.Open
